@@ -4,6 +4,7 @@
 #include "common/verif.hpp"
 
 #include <pika/latch.hpp>
+#include <optional>
 #include <pika/mutex.hpp>
 #include <pika/condition_variable.hpp>
 #include <pika/stop_token.hpp>
@@ -270,7 +271,9 @@ struct unwind_probe
     icell* c;
     ~unwind_probe()
     {
-        if (std::uncaught_exceptions() > 0) c->interrupted_at = c->loc.load();
+        // NB: not std::uncaught_exceptions(): that counter lives in the OS thread's exception globals, and a pika task that
+        // suspends while it is unwinding (e.g. ~jthread joining) and resumes on another worker leaves both workers' counters
+        // off by one.  The interruption is recorded by a catch block in the thread function instead.
         c->exited = true;
     }
 };
@@ -308,6 +311,8 @@ static void interrupt_round(std::uint64_t seed)
             ~at_exit() { l.count_down(1); }
         } ae{exited_l};
         unwind_probe up{c.get()};
+        try
+        {
         {
             // first statement: no interruption point is passed before interruption is disabled
             pika::this_thread::disable_interruption di;
@@ -343,6 +348,12 @@ static void interrupt_round(std::uint64_t seed)
         }
         c->loc = loc_none;
         c->finished_normally = true;
+        }
+        catch (pika::thread_interrupted const&)
+        {
+            c->interrupted_at = c->loc.load();
+            throw;    // the thread still ends by the interruption
+        }
     });
     if (t.joinable())
     {
@@ -399,6 +410,131 @@ static void interrupt_round(std::uint64_t seed)
     by_l.wait();
     if (by_done.load() != nby) vio("interrupt:bystander", "a bystander thread did not complete");
     g_bystanders_ok += nby;
+}
+
+
+// One interruption request is one delivery: after thread_interrupted was thrown once, the same thread passes further
+// interruption points (clean-up code that yields / locks / joins a child jthread while unwinding) without being
+// interrupted again, and the process survives.  (A second-round seeded change stops consuming the request on delivery.)
+static std::atomic<std::uint64_t> g_once_rounds{0}, g_once_child_rounds{0}, g_once_skipped{0};
+static void interrupt_once_round(std::uint64_t seed)
+{
+    rng r(seed);
+    bool with_child = r.chance(1, 2);
+    struct st_t
+    {
+        pika::latch child_done_l{1};
+        std::atomic<int> deliveries{0}, second{0};
+        std::atomic<bool> cleanup_done{false}, manual_stop{false}, child_started{false}, child_joinable{false};
+        pika::mutex m, wm, cm;
+        pika::condition_variable wcv;
+        pika::condition_variable_any ccv;
+        bool release = false;    // protected by wm; only set when the round is abandoned
+    };
+    auto st = std::make_shared<st_t>();
+    pika::thread t([st, with_child] {
+        try
+        {
+            std::optional<pika::jthread> child;
+            if (with_child)
+            {
+                // a short-lived child: ~jthread during unwinding still calls join(), whose first action is an interruption
+                // point.  (A child that blocks on a stop-token wait until ~jthread requests stop was tried first: on
+                // shared-priority with 2 workers its ~stop_callback spins with boosted priority in yield_while and starves the
+                // normal-priority task that is executing the callback - upstream scheduling behaviour, not judged here.)
+                child.emplace([st](pika::stop_token) {
+                    st->child_started = true;
+                    for (int i = 0; i < 3; ++i) pika::this_thread::yield();
+                    st->child_done_l.count_down(1);
+                });
+                st->child_joinable = child->joinable();
+            }
+            // block for real: the request is delivered by aborting this wait (the target is suspended, so interrupt() takes
+            // the direct path; a target that is merely pending/active can see a stale abort later - upstream behaviour that
+            // this round does not judge)
+            std::unique_lock<pika::mutex> l(st->wm);
+            st->wcv.wait(l, [&] { return st->release; });
+            // leaving the scope by exception destroys the child jthread: request_stop + join (join is an interruption point)
+        }
+        catch (pika::thread_interrupted const&)
+        {
+            st->deliveries++;
+        }
+        // clean-up: more interruption points, no new request
+        try
+        {
+            for (int i = 0; i < 5; ++i)
+            {
+                pika::this_thread::yield();
+                pika::this_thread::interruption_point();
+                std::unique_lock<pika::mutex> l(st->m);
+            }
+            st->cleanup_done = true;
+        }
+        catch (pika::thread_interrupted const&)
+        {
+            st->second++;
+        }
+    });
+    auto stop_child = [&] {
+        {
+            std::unique_lock<pika::mutex> l(st->cm);
+            st->manual_stop = true;
+        }
+        st->ccv.notify_all();
+    };
+    auto abandon = [&] {
+        {
+            std::unique_lock<pika::mutex> l(st->wm);
+            st->release = true;
+        }
+        st->wcv.notify_all();
+        stop_child();
+        g_once_skipped++;
+    };
+    if (!t.joinable())
+    {
+        // known finding D12 (shared-priority): no handle to interrupt or join
+        abandon();
+        t.detach();
+        return;
+    }
+    // bounded polling for "suspended" (never an unbounded spin on another task's progress)
+    bool suspended = false;
+    for (int i = 0; i < 3000 && !suspended; ++i)
+    {
+        suspended = pika::threads::detail::get_thread_state(t.native_handle()).state() == pika::threads::detail::thread_schedule_state::suspended;
+        if (!suspended) pika::this_thread::suspend(pika::threads::detail::thread_schedule_state::pending, "c13 poll");
+    }
+    if (!suspended)
+    {
+        abandon();
+        t.join();
+        return;
+    }
+    bool requested = true;
+    try
+    {
+        t.interrupt();
+    }
+    catch (pika::exception const&)
+    {
+        requested = false;
+    }
+    if (!requested) abandon();
+    t.join();
+    stop_child();
+    if (with_child && st->child_started.load() && !st->child_joinable.load()) st->child_done_l.wait();
+    if (requested)
+    {
+        if (st->deliveries.load() != 1) vio("interrupt:delivery-count", sf("one interrupt() request of a suspended thread was delivered %d times", st->deliveries.load()));
+        if (st->second.load() != 0 || !st->cleanup_done.load())
+            vio("interrupt:redelivered", sf("after one delivered interruption the thread was interrupted again at a later interruption point without a new request "
+                                            "(second deliveries %d, clean-up finished %d)", st->second.load(), (int) st->cleanup_done.load()));
+        g_once_rounds++;
+        if (with_child) g_once_child_rounds++;
+    }
+    g_interrupts++;
 }
 
 // D9 probe: interrupt a thread that sits in this_thread::yield() (declared noexcept, but an interruption point)
@@ -494,7 +630,11 @@ int main(int argc, char** argv)
                         else join_round(r.next(), 2, (int) d);
                     }
                     else if (g_mode == "jthread") jthread_round(r.next());
-                    else if (g_mode == "interrupt") interrupt_round(r.next());
+                    else if (g_mode == "interrupt")
+                    {
+                        if (r.chance(1, 3)) interrupt_once_round(r.next());
+                        else interrupt_round(r.next());
+                    }
                     else if (g_mode == "interrupt-yield") interrupt_in_yield_round();
                 }
                 g_progress++;
@@ -542,6 +682,9 @@ int main(int argc, char** argv)
         report.bit("join_wakeup_found_joiner_active", t.hits[pv::sts_active_helper]);
         report.bit("grandchildren", g_grand.load());
         report.bit("interrupt_delivered", g_delivered.load());
+        report.add("interrupt_once_rounds", g_once_rounds.load());
+        report.bit("interrupt_then_more_interruption_points", g_once_rounds.load());
+        report.bit("interrupted_thread_owns_jthread", g_once_child_rounds.load());
         report.bit("interrupt_not_delivered", g_not_delivered.load());
         report.bit("jthread", g_jthreads.load());
         std::string sig = cfg.describe() + "|" + g_mode + "|" + profile + "|";
